@@ -15,7 +15,7 @@ L1_NOTE = ('Trusted: the reference semantics (engine/vcommon/src/sem.rs), the fi
 
 add('C01', 'l1', 'Generated well-formed projects are printed from an AST, loaded by the real parser, and every (locale, key, arguments) is evaluated through Locale.strings and compared with a reference rendering of the AST. Sampling of an infinite project space: finds counter-examples, proves nothing.',
     L1_NOTE + 'code generation is observed by the generated-crate tier.')
-add('C02', 'l2', 'Generated packages compiled with load_locales!(); one natively created context per package, switched with set_locale; for every (locale, key, arguments, up to 3 counts) every accessor flavour (t!/tu!/td! views, *_string!, *_display!, the const chain for literal keys) and every scoping route (scope_i18n!, use_i18n_scoped!, scope_locale!, direct and chained) must equal the reference rendering, hence each other.',
+add('C02', 'l2', 'Generated packages compiled with load_locales!(); one natively created context per package, switched with set_locale; for every (locale, key, arguments, up to 3 counts) every accessor flavour (t!/tu!/td! views, *_string!, *_display!, the const chain for literal keys) and every scoping route (scope_i18n!, use_i18n_scoped!, scope_locale!, direct and chained) must equal the reference rendering, hence each other. A fifth of the variables carry a formatter: their expected text is fresh ICU4X output computed inside the generated binary by the independent vref crate.',
     'Trusted: reference semantics, the decoder of leptos to_html() output (empty text nodes render as one space). Reactive re-rendering is C16.',
     technique='differential property-based testing across accessor flavours on generated crates, with a reference model')
 add('C03', 'l1', 'Exhaustive enumeration of the 4-locale domain (125 inherits maps x 27 presence patterns x 6 value kinds) at parser level plus random projects with 2-6 locales; text per locale and the DefaultedLocales grouping used by the code generator are compared with the model walk along `inherits`.',
@@ -27,12 +27,13 @@ add('C04', 'l1', 'Stage 1 (parser): generated range declarations over all numeri
 add('C05', 'l1', 'Stage 1 (parser): hand-transcribed CLDR rules cross-checked against ICU4X; generated plural projects evaluated and `$t` literal counts resolved at parse time; UnusedForm diagnostics; raw plural-shaped key sets (mixing, collisions, single forms, no `other`). Stage 2 (generated crates): plural groups in 2-4 locales out of 16 covering every category pattern, observed through td_string!/td_display! (integers and FixedDecimal) and td! for 36 integer and 8 decimal counts.',
     L1_NOTE + 'no fallback between locales for plural keys (which rules apply to an inherited plural is unspecified).',
     technique='property-based testing against hand-transcribed CLDR rules (cross-checked with ICU4X), at parser level and on generated crates')
-add('C06', 'l1', 'Generated acyclic `$t` reference graphs (all target and argument kinds, null/inherited targets, namespaces) and mutated negative classes (missing target, group target, cycles); resolved trees from the parser are evaluated and compared with structural substitution on the AST; negative classes must be rejected naming the key.',
-    L1_NOTE + '`$t` inside a component body is outside the generated domain.')
+add('C06', 'l1', 'Exhaustive part: the enumerated 4-locale domain (125 inherits maps x 27 presence patterns of the target) with 8 reference shapes per pattern. Random part: generated acyclic `$t` reference graphs (all target and argument kinds, null/inherited targets, namespaces) and mutated negative classes (missing target, group target, cycles); resolved trees from the parser are evaluated and compared with structural substitution on the AST; negative classes must be rejected naming the key.',
+    L1_NOTE + '`$t` inside a component body is outside the generated domain.',
+    technique='exhaustive enumeration of a finite sub-domain + property-based testing against a reference model (structural substitution)')
 add('C07', 'l1', 'Generated key-set variations (absent / null / surplus keys and groups at every depth, inherits maps, kind flips); the multiset of MissingKey/SurplusKey diagnostics and the accessible key set from parse_locales are compared with the model.',
     L1_NOTE + 'three stages: parser level, the same on a harness build with suppress_key_warnings, and negative compile probes on generated crates.')
 add('C08', 'l1', 'Generated keys whose per-locale values differ in kind and member sets (and deliberate count conflicts); the InterpolOrLit computed by the parser is compared with the union over locales of the AST members after substitution.',
-    L1_NOTE + 'the typed-builder (compile-time) half needs generated crates.')
+    L1_NOTE + 'stage 2 = compile probes on generated crates: per key the valid call with exactly the union set (string and view back-ends; formatted variables as typed values) must compile with no error of any kind (compiled once without the negative probes so that borrow-check errors are not masked), and each omitted member / unknown member / unknown key / wrongly typed count must not compile.')
 add('C09', 'l1', 'Grammar-aware adversarial mutations of generated projects (delimiters, multi-byte characters, hostile ranges / bounds / counts / references / key names, mutated manifests) run in-process under catch_unwind through parse_locales, the build-script API and the code generator; deep / long values run in child processes with an 8 MiB stack; regression inputs of all earlier panics. Oracle: Ok or a non-empty error, never a panic, abort or signal.',
     'A child still running after 120 s is inconclusive (exit 2). Stack overflows on 65-130 kB single values are recorded as known finding D9. Coverage-guided byte-level fuzzing (libFuzzer) is the second stage of the thorough tier.',
     technique='property-based testing with grammar-aware mutation (+ libFuzzer in the thorough tier), crash oracle')
